@@ -108,6 +108,165 @@ mod origins {
 	}
 }
 
+mod ignore {
+	use super::*;
+	use ignore_files::{IgnoreFile, IgnoreFilter};
+	use std::path::{Path, PathBuf};
+	use watchexec::filter::Filterer;
+	use watchexec_events::{Event, FileType, Priority, Tag};
+	use watchexec_filterer_ignore::IgnoreFilterer;
+
+	fn mk(p: &Path, dir: bool) {
+		if dir {
+			std::fs::create_dir_all(p).unwrap();
+		} else {
+			std::fs::write(p, b"x").unwrap();
+		}
+	}
+
+	fn rel(base: &Path, comps: &Value) -> PathBuf {
+		let mut p = base.to_path_buf();
+		for c in comps.as_array().unwrap() {
+			p.push(c.as_str().unwrap());
+		}
+		p
+	}
+
+	fn verdicts(filter: &IgnoreFilter, probes: &[(PathBuf, bool)]) -> Vec<Value> {
+		let filterer = IgnoreFilterer(filter.clone());
+		probes
+			.iter()
+			.map(|(path, dir)| {
+				let event = Event {
+					tags: vec![Tag::Path {
+						path: path.clone(),
+						file_type: Some(if *dir { FileType::Dir } else { FileType::File }),
+					}],
+					metadata: Default::default(),
+				};
+				let pass = filterer.check_event(&event, Priority::Normal).unwrap();
+				let raw = filter.match_path(path, *dir);
+				json!({
+					"ignored": !pass,
+					"check_dir_ignored": if *dir { json!(!filter.check_dir(path)) } else { Value::Null },
+					"raw": if raw.is_ignore() { "ignore" } else if raw.is_whitelist() { "white" } else { "none" },
+				})
+			})
+			.collect()
+	}
+
+	pub async fn run(case: &Value, scratch: &Path) -> Value {
+		let tmp = tempfile::tempdir_in(scratch).unwrap();
+		let base = tmp.path().canonicalize().unwrap();
+		let origin = base.join("proj");
+		let outside = base.join("projx");
+		for d in ["test/sub", "tests/sub", "a"] {
+			mk(&origin.join(d), true);
+		}
+		for d in ["", "test", "test/sub", "tests", "tests/sub", "a"] {
+			mk(&origin.join(d).join("foo"), false);
+			mk(&origin.join(d).join("x.o"), false);
+		}
+		mk(&outside.join("sub"), true);
+		mk(&outside.join("foo"), false);
+		mk(&outside.join("x.o"), false);
+
+		let mut files: Vec<(IgnoreFile, String)> = Vec::new();
+		for (i, f) in case["files"].as_array().unwrap().iter().enumerate() {
+			let loc = f["loc"].as_array().unwrap();
+			let global = loc.first().map_or(false, |c| c == "GLOBAL");
+			let dir = if global { base.clone() } else { rel(&origin, &f["loc"]) };
+			let path = dir.join(format!(".ignore_{i}"));
+			let mut content = String::new();
+			for l in f["lines"].as_array().unwrap() {
+				content.push_str(l.as_str().unwrap());
+				content.push('\n');
+			}
+			std::fs::write(&path, content).unwrap();
+			let key = if global { "GLOBAL".to_string() } else { dir.display().to_string() };
+			files.push((
+				IgnoreFile {
+					path,
+					applies_in: if global { None } else { Some(dir) },
+					applies_to: None,
+				},
+				key,
+			));
+		}
+
+		let expect = case["expect"].as_array().unwrap();
+		let probes: Vec<(PathBuf, bool)> = expect
+			.iter()
+			.map(|e| {
+				let comps = e["path"].as_array().unwrap();
+				let p = if comps[0] == "OUT" {
+					let mut p = outside.clone();
+					for c in &comps[1..] {
+						p.push(c.as_str().unwrap());
+					}
+					p
+				} else {
+					rel(&origin, &e["path"])
+				};
+				(p, e["dir"].as_bool().unwrap())
+			})
+			.collect();
+
+		let listed: Vec<IgnoreFile> = files.iter().map(|(f, _)| f.clone()).collect();
+		// a permutation that keeps the order of files applying in the same directory
+		let mut permuted: Vec<(IgnoreFile, String)> = files.clone();
+		permuted.reverse();
+		permuted.sort_by(|a, b| b.1.cmp(&a.1));
+		let mut groups: std::collections::BTreeMap<String, Vec<IgnoreFile>> = Default::default();
+		for (f, k) in &files {
+			groups.entry(k.clone()).or_default().push(f.clone());
+		}
+		let mut cursor: std::collections::BTreeMap<String, usize> = Default::default();
+		let permuted: Vec<IgnoreFile> = permuted
+			.iter()
+			.map(|(_, k)| {
+				let i = cursor.entry(k.clone()).or_insert(0);
+				let f = groups[k][*i].clone();
+				*i += 1;
+				f
+			})
+			.collect();
+
+		let mut out = serde_json::Map::new();
+		let mut put = |name: &str, r: Result<IgnoreFilter, String>| {
+			out.insert(
+				name.into(),
+				match r {
+					Ok(f) => json!(verdicts(&f, &probes)),
+					Err(e) => json!({"error": e}),
+				},
+			);
+		};
+		put("new", IgnoreFilter::new(&origin, &listed).await.map_err(|e| e.to_string()));
+		put("new_again", IgnoreFilter::new(&origin, &listed).await.map_err(|e| e.to_string()));
+		put("new_permuted", IgnoreFilter::new(&origin, &permuted).await.map_err(|e| e.to_string()));
+		let added = async {
+			let mut f = IgnoreFilter::new(&origin, &[]).await.map_err(|e| e.to_string())?;
+			for file in &listed {
+				f.add_file(file).await.map_err(|e| e.to_string())?;
+			}
+			Ok::<_, String>(f)
+		}
+		.await;
+		put("new_then_add", added);
+		let added = async {
+			let mut f = IgnoreFilter::empty(&origin);
+			for file in &permuted {
+				f.add_file(file).await.map_err(|e| e.to_string())?;
+			}
+			Ok::<_, String>(f)
+		}
+		.await;
+		put("empty_then_add_permuted", added);
+		Value::Object(out)
+	}
+}
+
 fn main() {
 	let args: Vec<String> = std::env::args().collect();
 	let kind = args[1].clone();
@@ -159,6 +318,7 @@ fn main() {
 					rt.block_on(async {
 						match kind.as_str() {
 							"origins" => origins::run(case, &scratch).await,
+							"ignore" => ignore::run(case, &scratch).await,
 							other => panic!("unknown kind {other}"),
 						}
 					})
